@@ -29,6 +29,7 @@ class Prop:
         self.shrink_budget = shrink_budget
         self.timeout = timeout
         self.replay = replay
+        self.det_sample = 4
 
 
 def nt_fault_fired(main):
@@ -135,3 +136,6 @@ RULE_C20 = ('one evaluation = one schedule of one program pair executed in a fre
             'per-thread line count); non-trivial = at least one thread switch actually happened inside library code')
 reg(Prop('C20', {'quick': 0, 'thorough': 0}, {'quick': 100, 'thorough': 1500}, RULE_C20, level='fault_enumeration', mode='threads',
          cfg={'quick': {'pairs': 3, 'k_per_pair': 100, 'pct_per_pair': 20, 'small': True, 'window_cap': 2000}, 'thorough': {'pairs': 6, 'all_k_pairs': 2, 'k_per_pair': 2000, 'pct_per_pair': 400}}))
+
+
+get('C16').det_sample = 250      # C16 also judges serialisation across hash seeds (determinism across processes)
